@@ -19,6 +19,7 @@ RULE = ("one dataset dictionary is written both as a text file and as a NetCDF f
 RULE += " " + 'lat and lon are present independently (only one of them in 15 % of the files).'
 RULE += " " + 'Thresholds inexact in float32; all five NetCDF on-disk formats; text2nc output and its read-back matched by location id over every field.'
 RULE += " " + 'Rounds 9-10: files without a forecast column; unwritten time slots; legitimate values below -999 in text and NetCDF copies of the same data.'
+RULE += " " + 'Rounds 13-14: threshold / quantile coordinates stored in non-ascending order (cdf / x columns in the same order).'
 ASSUMPTIONS = ["metadata that neither file carries (e.g. no altitude anywhere) is not compared: the two readers' defaults "
                "for absent metadata are not part of the property",
                "location ids fit in int32 (text2nc stores them so)"]
